@@ -488,3 +488,74 @@ def tail_loop_fn(text):
 
 def tail_unit(text):
     return vlib.verus_file([TAIL_MODEL, tail_loop_fn(text), vlib.verus_canary("canary_tail", "x: u64", [])])
+
+
+# ---- variable patterns of pattern_matches_value_with_semantics (src/interpreter/src/patterns.rs) ------------------------------------------
+PPATH = "src/interpreter/src/patterns.rs"
+VARPAT_MODEL = """
+#[derive(Clone, Copy, PartialEq, Eq, Structural)]
+pub struct Value { pub id: u64 }
+pub struct MechError { pub id: u64 }
+pub struct Ident { pub id: u64 }
+pub uninterp spec fn ident_hash(i: Ident) -> u64;
+impl Ident { #[verifier::external_body] pub fn hash(&self) -> (r: u64) ensures r == ident_hash(*self), { unimplemented!() } }
+pub struct Var { pub name: Ident }
+// the environment of bindings made so far by the enclosing pattern (HashMap<u64, Value>)
+pub struct Environment { pub m: Ghost<Map<u64, Value>> }
+impl Environment {
+  #[verifier::external_body]
+  pub fn get(&self, k: &u64) -> (r: Option<&Value>)
+    ensures (match r { Some(v) => self.m@.contains_key(*k) && self.m@[*k] == *v, None => !self.m@.contains_key(*k) }),
+  { unimplemented!() }
+  #[verifier::external_body]
+  pub fn insert(&mut self, k: u64, v: Value) ensures final(self).m@ == old(self).m@.insert(k, v), { unimplemented!() }
+}
+// ---- THE CONTRACT (C16: "pattern variables bound to the matched parts"): a variable pattern whose name is NOT yet bound matches anything and
+// binds the name to the matched part; a name that IS already bound (a variable repeated in the pattern) matches only a part equal to the
+// value it is bound to, and never rebinds it
+pub open spec fn var_rule(id: u64, v: Value, before: Map<u64, Value>, after: Map<u64, Value>, res: Result<bool, MechError>) -> bool {
+  if before.contains_key(id) { res == Ok::<bool, MechError>(before[id] == v) && after == before }
+  else { res == Ok::<bool, MechError>(true) && after == before.insert(id, v) }
+}
+"""
+
+
+def varpat_fns(text):
+    """the two variable arms of `pattern_matches_value_with_semantics`: (a) `Pattern::Expression(Expression::Var(var)) => {..}` (when the arm
+    exists: the generic arm below subsumes it) as `fn var_arm(var, detached_value, env)`, (b) of the arm `Pattern::Expression(expr) => {..}` the
+    block `if let Some(var_id) = extract_pattern_variable_id(expr) {..}` as `fn wrapped_var_arm(var_id, detached_value, env)` (what follows the
+    block is reached only for non-variable expressions: `unreached()`); `existing == &detached_value` -> `*existing == detached_value`"""
+    sig, body = extract_fn(text, "pattern_matches_value_with_semantics")
+    b = re.sub(r"//[^\n]*", "", body).replace("\r", "")
+    out, fns = "", []
+    def fix(s):
+        s = re.sub(r"\b(\w+)\s*==\s*&(\w+)", r"*\1 == \2", s)
+        if re.search(r"\b(expression|values_match|semantics|p)\b", s):
+            raise AnchorLost("pattern_matches_value_with_semantics: a variable arm is outside the transcription rules")
+        return s
+    ma = re.search(r"Pattern::Expression\(\s*Expression::Var\(\s*(\w+)\s*\)\s*\)\s*=>\s*\{", b)
+    if ma:
+        e = match_brace(b, ma.end() - 1)
+        out += ("fn var_arm(%s: &Var, detached_value: Value, env: &mut Environment) -> (res: Result<bool, MechError>)\n"
+                "  ensures var_rule(ident_hash(%s.name), detached_value, old(env).m@, final(env).m@, res),\n{\n" % (ma.group(1), ma.group(1))
+                + fix(b[ma.end():e - 1]) + "\n}\n")
+        fns.append("var_arm")
+    mb = re.search(r"Pattern::Expression\(\s*(\w+)\s*\)\s*=>\s*\{", b)
+    if not mb:
+        raise AnchorLost("pattern_matches_value_with_semantics: the arm `Pattern::Expression(expr)` not found")
+    arm = b[mb.end():match_brace(b, mb.end() - 1) - 1]
+    mi = re.match(r"\s*if\s+let\s+Some\(\s*(\w+)\s*\)\s*=\s*extract_pattern_variable_id\(\s*%s\s*\)\s*\{" % mb.group(1), arm)
+    if not mi:
+        raise AnchorLost("pattern_matches_value_with_semantics: the arm `Pattern::Expression(expr)` does not start with the variable test")
+    e = match_brace(arm, mi.end() - 1)
+    out += ("#[verifier::external_body]\nfn unreached() -> (r: Result<bool, MechError>) requires false, { unimplemented!() }\n"
+            "fn wrapped_var_arm(%s: u64, detached_value: Value, env: &mut Environment) -> (res: Result<bool, MechError>)\n"
+            "  ensures var_rule(%s, detached_value, old(env).m@, final(env).m@, res),\n{\n" % (mi.group(1), mi.group(1))
+            + fix(arm[mi.end():e - 1]) + "\n  unreached()\n}\n")
+    fns.append("wrapped_var_arm")
+    return out, fns
+
+
+def varpat_unit(text):
+    body, fns = varpat_fns(text)
+    return "use vstd::prelude::*;\nverus! {\n" + VARPAT_MODEL + body + vlib.verus_canary("canary_varpat", "x: u64", []) + "\n} // verus!\nfn main() {}\n", fns
